@@ -121,23 +121,35 @@ class _Hang(Exception):
     """an implementation call did not return (the property demands termination)"""
 
 
-def _guarded(fn, *args, limit=3.0):
-    """Run one implementation call under a wall-clock limit (SIGALRM, main thread only): an iterator that
-    never returns must become an observation, not a hung check."""
-    import signal
-    import threading
-    if threading.current_thread() is not threading.main_thread():
-        return fn(*args)
+_ALARM_READY = False
 
-    def on_alarm(signum, frame):
-        raise _Hang()
-    old = signal.signal(signal.SIGALRM, on_alarm)
-    signal.setitimer(signal.ITIMER_REAL, limit)
-    try:
-        return fn(*args)
-    finally:
-        signal.setitimer(signal.ITIMER_REAL, 0)
-        signal.signal(signal.SIGALRM, old)
+
+class _limit:
+    """Wall-clock limit for the implementation calls of ONE schedule (SIGALRM, main thread only): an iterator
+    that never returns must become an observation, not a hung check."""
+
+    def __init__(self, seconds=5.0):
+        self.seconds = seconds
+
+    def __enter__(self):
+        import signal
+        import threading
+        global _ALARM_READY
+        self.on = threading.current_thread() is threading.main_thread()
+        if self.on:
+            if not _ALARM_READY:
+                def on_alarm(signum, frame):
+                    raise _Hang()
+                signal.signal(signal.SIGALRM, on_alarm)
+                _ALARM_READY = True
+            signal.setitimer(signal.ITIMER_REAL, self.seconds)
+        return self
+
+    def __exit__(self, *a):
+        import signal
+        if self.on:
+            signal.setitimer(signal.ITIMER_REAL, 0)
+        return False
 
 
 def run_impl(sched: dict) -> list[dict]:
@@ -145,8 +157,9 @@ def run_impl(sched: dict) -> list[dict]:
     out = []
     for e in sched["events"]:
         try:
-            r = _guarded(im.do, e)
-            f, b, n = _guarded(im.snapshot)
+            with _limit():
+                r = im.do(e)
+                f, b, n = im.snapshot()
         except _Hang:
             out.append({"res": ["raise", "Hang"], "fwd": [], "bwd": [], "len": -1})
             break           # the structure cannot be observed any further
@@ -698,8 +711,10 @@ def run_rec(sched):
     out = []
     for e in sched["events"]:
         try:
-            r = _guarded(im.do, e)
-            out.append({"res": list(r), "lists": _guarded(im.snapshot)})
+            with _limit():
+                r = im.do(e)
+                snap = im.snapshot()
+            out.append({"res": list(r), "lists": snap})
         except _Hang:
             out.append({"res": ["raise", "Hang"], "lists": {str(g): [] for g in REC_POOLS}})
             break
